@@ -127,8 +127,8 @@ def BondDecreaseKind (s s' : St) (o : Op) (a : Addr) (d : Nat) : Prop :=
     ((o = .unbond a ∨ ∃ amt, o = .bondDec a amt) ∧
       getBal s'.bal a = getBal s.bal a + d ∧ s'.modBal + d = s.modBal ∧
       s'.burned = s.burned ∧ ∀ b, b ≠ a → getBal s'.bal b = getBal s.bal b) ∨
-    (∃ au ra hh rev rw paid, o = .fraud au ra hh rev (some a) rw ∧ paid * 2 ≤ d ∧
-      s'.modBal + d = s.modBal ∧ s'.burned = s.burned + (d - paid) ∧
+    (∃ rw paid, ((∃ au ra hh rev, o = .fraud au ra hh rev (some a) rw) ∨ (∃ au, o = .punish au a rw)) ∧
+      paid * 2 ≤ d ∧ s'.modBal + d = s.modBal ∧ s'.burned = s.burned + (d - paid) ∧
       ∀ b, getBal s'.bal b = getBal s.bal b + (if rw = some b then paid else 0)) ∨
     (∃ fails, o = .end_ fails ∧ s'.bal = s.bal ∧ s'.modBal + s'.burned = s.modBal + s.burned ∧
       d ≤ s'.burned - s.burned)
@@ -139,7 +139,8 @@ def BondDecreaseKind (s s' : St) (o : Op) (a : Addr) (d : Nat) : Prop :=
     1. a withdrawal requested by `a` itself (`MsgUnbond` / `MsgDecreaseBond` signed by `a`): `a`'s own bank
        balance grew by exactly `d`, the module account shrank by exactly `d`, nothing was burned and nobody
        else's balance moved;
-    2. a fraud proposal naming `a` as the sequencer to punish: the module account shrank by exactly `d`,
+    2. a governance punishment of `a` — a fraud proposal naming `a` as the sequencer to punish, or the
+       standalone `PunishSequencerProposal` against `a` (no fork): the module account shrank by exactly `d`,
        at most half of `d` (`paid`, truncated) went to the named rewardee — to nobody if none is named — and
        the rest `d - paid` was burned; no other balance moved;
     3. a block end (the liveness slash): no bank balance changed at all, whatever left the module account was
@@ -188,12 +189,27 @@ theorem bond_decreases_only_by (s s' : St) (o : Op) (a : Addr) (q q' : Seq)
         obtain ⟨q0, q1, paid, h0, h1, _, _, hpl, hm, hbn, hbal⟩ := pp.ex
         rw [hq] at h0; cases h0
         rw [hq'] at h1; cases h1
-        exact Or.inr (Or.inl ⟨au, ra, hh, rev, rw, paid, rfl, hpl, hm, hbn, hbal⟩)
+        exact Or.inr (Or.inl ⟨rw, paid, Or.inl ⟨au, ra, hh, rev, rfl⟩, hpl, hm, hbn, hbal⟩)
       · exfalso
         have := pp.others a (Ne.symm e)
         rw [hq, hq'] at this
         have : q'.tokens = q.tokens := by simpa using this
         omega
+  by_cases c5 : ∃ au a' rw, o = .punish au a' rw
+  · obtain ⟨au, a', rw, e⟩ := c5
+    subst e
+    have pp := punish_punished (punishProposal_ok (show punishProposal s au a' rw = .ok s' from h)).2
+    by_cases e : a' = a
+    · subst e
+      obtain ⟨q0, q1, paid, h0, h1, _, _, hpl, hm, hbn, hbal⟩ := pp.ex
+      rw [hq] at h0; cases h0
+      rw [hq'] at h1; cases h1
+      exact Or.inr (Or.inl ⟨rw, paid, Or.inr ⟨au, rfl⟩, hpl, hm, hbn, hbal⟩)
+    · exfalso
+      have := pp.others a (Ne.symm e)
+      rw [hq, hq'] at this
+      have : q'.tokens = q.tokens := by simpa using this
+      omega
   by_cases c4 : ∃ f, o = .end_ f
   · obtain ⟨f, e⟩ := c4
     subst e
@@ -204,11 +220,22 @@ theorem bond_decreases_only_by (s s' : St) (o : Op) (a : Addr) (q q' : Seq)
     rw [hq] at h0; cases h0
     exact Or.inr (Or.inr ⟨f, rfl, b.bal, b.conserve, by have := b.mono; omega⟩)
   · exfalso
-    refine (apply_noDec h ?_ ?_ ?_ ?_).not_lt hq hq' hlt
+    refine (apply_noDec h ?_ ?_ ?_ ?_ ?_).not_lt hq hq' hlt
     · intro a' amt e; exact c1 ⟨a', amt, e⟩
     · intro a' e; exact c2 ⟨a', e⟩
     · intro au ra hh rev a' rw e; exact c3 ⟨au, ra, hh, rev, a', rw, e⟩
     · intro f e; exact c4 ⟨f, e⟩
+    · intro au a' rw e; exact c5 ⟨au, a', rw, e⟩
+
+/-- **the standalone `PunishSequencerProposal`, exact accounting**: accepted only from the governance
+    authority; the punished sequencer's whole bond `q.tokens` leaves the module account, `paid` = half
+    of it (truncated) goes to the named rewardee — nothing if none is named — and the rest is burned; no
+    other balance and no other bond moves. -/
+theorem punish_proposal_accounting (s s' : St) (au : Bool) (a : Addr) (rw : Option Addr)
+    (h : apply s (.punish au a rw) = .ok s') :
+    au = true ∧ Punished s s' a rw (punishShare rw) :=
+  ⟨(punishProposal_ok (show punishProposal s au a rw = .ok s' from h)).1,
+   punish_punished (punishProposal_ok (show punishProposal s au a rw = .ok s' from h)).2⟩
 
 /-- a sequencer record is never deleted by a step, so "the bond of `a` before / after" is always defined
     once `a` is a sequencer -/
@@ -241,6 +268,17 @@ theorem sequencer_record_persists (s s' : St) (o : Op) (a : Addr) (q : Seq)
         cases hx : getSeq s' a with
         | none => rw [hx] at this; cases this
         | some q1 => exact ⟨q1, rfl⟩
+  by_cases c5 : ∃ au a' rw, o = .punish au a' rw
+  · obtain ⟨au, a', rw, e⟩ := c5
+    subst e
+    have pp := punish_punished (punishProposal_ok (show punishProposal s au a' rw = .ok s' from h)).2
+    by_cases e : a' = a
+    · subst e; obtain ⟨_, q1, _, _, h1, _⟩ := pp.ex; exact ⟨q1, h1⟩
+    · have := pp.others a (Ne.symm e)
+      rw [hq] at this
+      cases hx : getSeq s' a with
+      | none => rw [hx] at this; cases this
+      | some q1 => exact ⟨q1, rfl⟩
   by_cases c4 : ∃ f, o = .end_ f
   · obtain ⟨f, e⟩ := c4
     subst e
@@ -268,7 +306,7 @@ theorem sequencer_record_persists (s s' : St) (o : Op) (a : Addr) (q : Seq)
                 · cases hs1
                 · rename_i s2 q2 hsl
                   injection hs1 with hs1; subst hs1
-                  exact (addrs_replace s2.seqs { q2 with dishonor := q2.dishonor + s2.p.dishonorL }).trans
+                  exact (addrs_replace s2.seqs { q2 with dishonor := q2.dishonor + s2.sqp.dishonorL }).trans
                     (congrArg (List.map (·.addr)) (slash_spec hsl).1)
     have hall : (endBlock s f).seqs.map (·.addr) = s.seqs.map (·.addr) := by
       unfold endBlock checkLiveness
@@ -285,7 +323,8 @@ theorem sequencer_record_persists (s s' : St) (o : Op) (a : Addr) (q : Seq)
     | some q2 => exact ⟨q2, rfl⟩
     | none => exact absurd hq1a (getSeq_none hx q1 hq1)
   · obtain ⟨q', hq', _⟩ := (apply_noDec h (fun a' amt e => c1 ⟨a', amt, e⟩) (fun a' e => c2 ⟨a', e⟩)
-      (fun au ra hh rev a' rw e => c3 ⟨au, ra, hh, rev, a', rw, e⟩) (fun f e => c4 ⟨f, e⟩)) a q hq
+      (fun au ra hh rev a' rw e => c3 ⟨au, ra, hh, rev, a', rw, e⟩) (fun f e => c4 ⟨f, e⟩)
+      (fun au a' rw e => c5 ⟨au, a', rw, e⟩)) a q hq
     exact ⟨q', hq'⟩
 
 /-- **trace form**: along every run from genesis, a bond that is lower after the next op than before it was
@@ -414,6 +453,14 @@ theorem slash_without_reward_ignores_rewardee (s : St) (q : Seq) (amt : Nat) (rw
     unfold Dec.mulInt Dec.truncateInt chopTrunc decP; simp
   simp only [h0]
   rfl
+
+-- non-vacuity of kind 2 through the standalone proposal: a1 (bond 10) punished, rewardee a7 gets 5, 5 burned, no fork
+def exPunished : St := run exLive (exPre ++ [exUpd, .punish true 1 (some 7)])
+example : (getSeq exPunished 1).map (·.tokens) = some 0 ∧ getBal exPunished.bal 7 = 5 ∧ exPunished.burned = 5 ∧
+    exPunished.modBal = 15 ∧ (getRa exPunished 0).map (·.proposer) = some (some 1) ∧
+    (getRa exPunished 0).map (·.revs.length) = some 1 := by decide
+-- ... and with a rewardee the bank refuses: rejected as a whole
+example : (step (run exLive (exPre ++ [exUpd])) (.punish true 1 (some 900))).2 = some .blockedRecipient := by decide
 
 -- non-vacuity: a1 (bond 10, reward share 5) punished with rewardee m0 = address 900 (the distribution
 -- module account): rejected with the bank's recipient error, bond / module account / burn counter /
